@@ -295,7 +295,7 @@ def _judge_batches(ctx, pre, batch, K, b, stored, info, present=None):
             bad = True
         if b == len(stored) and not bad:
             ctx.monitor("full_draw_batches_equal_stored_set")
-        out.append(set(pos))
+        out.append(None if bad else set(pos))
     return out
 
 
@@ -303,6 +303,9 @@ def _judge_reach(ctx, pre, seen_sets, b, stored, info):
     """every stored id is reachable; judged only if a uniform sampler misses with p < 1e-9."""
     m, K = len(stored), len(seen_sets)
     if m == 0 or b <= 0:
+        return
+    if any(x is None for x in seen_sets):  # already reported under its own key; ids of such batches are unusable
+        ctx.monitor("reachability_skipped_batches_already_refuted")
         return
     if b < m and m * (1.0 - b / m) ** K >= 1e-9:
         return
